@@ -211,7 +211,14 @@ def gen_plan(rng, idx):
                     for w in f['w']:
                         if w not in targets and rng.random() < 0.4:
                             targets.append(w)
-    peer = {'targets': targets, 'phrases': phrases,
+    eol = []
+    if route != 'html' and transport != 'textgears':
+        for d in docs:
+            for f in d:
+                if f['k'] == 'twolines' and rng.random() < 0.5:
+                    # the last word of the first line, line break included
+                    eol.append(f['w'][2])
+    peer = {'targets': targets, 'phrases': phrases, 'eol': eol,
             'dup': [w for w in targets if rng.random() < 0.08],
             'nonascii': rng.random() < 0.8,
             'ensure_ascii': rng.random() < 0.3,
@@ -295,7 +302,17 @@ def gen_plan(rng, idx):
             name = rng.choice(['main', 'ch', 'sec', 'kapitel']) + str(i) + '.tex'
             files[name] = {'frags': d, 'enc': enc, 'crlf': rng.random() < 0.15}
             names.append(name)
-        plan['argv'] = argv + ['--output', route] + names
+        given = list(names)
+        if len(names) > 1 and not plain_input and rng.random() < 0.12:
+            # inclusion tracking: only the first file is named, the others are
+            # reached through a chain of \input (discovery order = this order)
+            argv.append('--include')
+            for a_, b_ in zip(names, names[1:]):
+                files[a_]['frags'].insert(0, docgen.frag(
+                    'edge', '\\input{%s}\n' % b_[:-4]))
+            given = [names[0]]
+            opts['include'] = True
+        plan['argv'] = argv + ['--output', route] + given
         plan['files'] = files
         plan['names'] = names
     return plan
@@ -621,6 +638,14 @@ def evaluate(plan):
                     if w in dups:
                         exp.append((w, src, len(w)))
                         probes['peer_duplicated'] = 1
+            for w in plan['peer'].get('eol', []):
+                o_ = sub['text'].find(w)
+                if o_ >= 0 and sub['text'][o_ + len(w):o_ + len(w) + 1] == '\n':
+                    s_ = tex.find(w)
+                    if s_ < 0 or tex[s_ + len(w):s_ + len(w) + 1] != '\n':
+                        return core.harness('eol word %r not at a line end' % w)
+                    exp.append((w + '+EOL', s_, len(w) + 1))
+                    probes['match_ending_with_line_break'] = 1
             for (w1, w2) in plan['peer'].get('phrases', []):
                 o1, o2 = sub['text'].find(w1), sub['text'].find(w2)
                 if 0 <= o1 < o2 and o2 + len(w2) - o1 < 300:
@@ -757,6 +782,8 @@ def evaluate(plan):
     if n_exp:
         nt = obs['digest']
     probes['route_' + route] = 1
+    if o.get('include'):
+        probes['include_chain'] = 1
     if any(sp.get('crlf') for sp in plan['files'].values()) or \
             any(r_.get('crlf') for r_ in plan.get('requests') or []):
         probes['crlf_line_ends'] = 1
@@ -859,7 +886,8 @@ def collect_reports(plan, obs, us):
                 def col(y, x):
                     if not byt:
                         return x
-                    b = lines[y].encode('utf-8')[:x]
+                    # (a column may point behind the line break of the line)
+                    b = (lines[y] + '\n').encode('utf-8')[:x]
                     try:
                         return len(b.decode('utf-8'))
                     except UnicodeDecodeError:
@@ -869,6 +897,19 @@ def collect_reports(plan, obs, us):
                 w = word_of(a.get('msg'))
                 r = {'offset': off, 'length': end - off, 'word': w,
                      'problems': []}
+                if w is not None and end > off:
+                    # the end is reported as "line and column behind the last
+                    # character", exactly as in the JSON output (priv.toy/tox):
+                    # a match ending with a line break ends on THAT line
+                    last = end - 1
+                    ey = tex.count('\n', 0, last)
+                    enl = tex.rfind('\n', 0, last) + 1
+                    ex = (len(tex[enl:last + 1].encode('utf-8')) if byt
+                          else last - enl + 1)
+                    if (ty, tx) != (ey, ex):
+                        r['problems'].append(
+                            'xml-end: toy/tox=%r, the JSON convention gives %r'
+                            % ((ty, tx), (ey, ex)))
                 if w is not None:
                     ct = a.get('context', '')
                     try:
